@@ -815,6 +815,80 @@ TRUSTED = ['harness/c17.py observation of ODL objects (type, space, np.shares_me
            'C17/Arr.v exact semantics of the modelled ufunc methods (validated against NumPy by the raw half of each case)']
 
 
+# ---- memory layouts
+LAYOUTS = ['C', 'F', 'T', 'S', 'N']      # C order, Fortran order, transposed view, strided view, negative strides
+
+
+def make_layout(data, lay, dtype=None):
+    """an array with the given logical contents in the requested memory layout"""
+    a = np.array(data, dtype=dtype)
+    if lay == 'F':
+        r = np.asfortranarray(a)
+    elif lay == 'T':
+        r = np.ascontiguousarray(a.T).T
+    elif lay == 'S':
+        base = np.zeros(tuple(2 * n for n in a.shape), dtype=a.dtype)
+        r = base[tuple(slice(None, None, 2) for _ in a.shape)]
+        r[...] = a
+    elif lay == 'N':
+        base = a[::-1].copy()
+        r = base[::-1]
+    else:
+        r = a.copy()
+    assert np.array_equal(r, a)
+    return r
+
+
+def relayout(b):
+    """a fresh array with the same contents AND the same kind of memory layout as b"""
+    if b.ndim == 0 or b.size == 0 or b.flags.c_contiguous:
+        return b.copy()
+    if b.flags.f_contiguous:
+        return np.asfortranarray(b.copy())
+    if any(st_ < 0 for st_ in b.strides):
+        return make_layout(b, 'N')
+    return make_layout(b, 'S')
+
+
+def layout_term(a):
+    c, f = bool(a.flags.c_contiguous), bool(a.flags.f_contiguous)
+    return 'LayCF' if (c and f) else ('LayC' if c else ('LayF' if f else 'LayStrided'))
+
+
+def wrap_cases(rng, tier):
+    """space.element(arr[, order]) for tensor and discretized spaces: shares memory or copies?"""
+    import odl
+    cs = C.CaseSet('wrap', ['C17.Model', 'C17.Corr'], 'check_wrap', 'wcase')
+    reps = 1 if tier == 'quick' else 3
+    for _ in range(reps):
+        for kind in ('tens', 'disc'):
+            for lay in LAYOUTS:
+                for order in (None, 'C', 'F'):
+                    for adt, sdt in (('float64', 'float64'), ('float32', 'float64'), ('int64', 'int64'),
+                                     ('float64', 'float32')):
+                        for writeable in (True, False):
+                            for shape_ok in (True, True, False):
+                                shape = rand_shape(rng, rng.choice([1, 2, 2, 3]), lo=2)
+                                ashape = shape if shape_ok else tuple(n + 1 for n in shape)
+                                arr = make_layout(ivals(rng, ashape), lay, dtype=adt)
+                                arr.setflags(write=writeable)
+                                sp = odl.tensor_space(shape, dtype=sdt) if kind == 'tens' else \
+                                    odl.uniform_discr([0.0] * len(shape), [1.0] * len(shape), shape, dtype=sdt)
+                                try:
+                                    x = sp.element(arr) if order is None else sp.element(arr, order=order)
+                                    err, shares = False, bool(np.shares_memory(arr, x.asarray()))
+                                except ValueError:
+                                    err, shares = True, False
+                                t = '(mkWCase %s %s %s %s %s %s %s %s)' % (
+                                    C.b(shape_ok), dt_term(adt), dt_term(sdt), C.b(writeable), layout_term(arr),
+                                    'None' if order is None else '(Some Ord%s)' % order, C.b(err), C.b(shares))
+                                cs.add(t, {'wrap': kind, 'layout': lay, 'order': order, 'arr_dtype': adt,
+                                           'space_dtype': sdt, 'writeable': writeable, 'shape_ok': shape_ok,
+                                           'shape': list(shape), 'shares': shares, 'err': err},
+                                       (kind, layout_term(arr), order, adt, sdt, writeable, shape_ok))
+    return cs
+
+
 # ---- legacy interface on (nested) power spaces: element trees
 def tree_term(x):
     import odl
@@ -1007,7 +1081,7 @@ def correspondence(rng, tier):
         desc['odl'] = odl_s
         desc['raw'] = raw_s
         cs.add(t, desc, None if 'err' in raw_s else key)
-    return [cs, legacy_cases(rng, tier), pspace_cases(rng, tier)]
+    return [cs, legacy_cases(rng, tier), pspace_cases(rng, tier), wrap_cases(rng, tier)]
 
 
 # ------------------------------------------------------------------ probes
@@ -1524,9 +1598,7 @@ def sharing_eval(spec):
     """space.element(arr) shares memory with arr (matching dtype/shape), asarray round-trips"""
     space = build_space(spec['space'])
     shape = tuple(space_shape(spec['space']))
-    arr = np.array(spec['data'], dtype=spec['adtype']).reshape(shape if not spec.get('transposed') else shape[::-1])
-    if spec.get('transposed'):
-        arr = arr.T
+    arr = make_layout(np.array(spec['data'], dtype=spec['adtype']).reshape(shape), spec.get('layout', 'C'))
     before = arr.copy()
     x = space.element(arr)
     a = x.asarray()
@@ -1552,6 +1624,13 @@ def sharing_eval(spec):
             x2.asarray()[idx] = 5
             if arr[idx] != 5:
                 return False, 'write-back-not-visible', None, None
+        # a ufunc with out= aliased to the element is seen through the wrapped array
+        x3 = space.element(arr)
+        if spec['space']['kind'] != 'pow' and np.dtype(spec['adtype']).kind in 'fi':
+            expect = (arr * 2).copy()
+            r = np.multiply(x3, 2, out=x3)
+            if r is not x3 or not _same(arr, expect):
+                return False, 'out-alias-not-visible', arr.tolist(), expect.tolist()
     return True, '', None, None
 
 
@@ -1566,17 +1645,18 @@ def structural_probes(rng, tier):
                     sd = rand_space_descr(rng, kind, dtype)
                     sd.pop('weighting', None)
                     shape = space_shape(sd)
-                    spec = {'space': sd, 'adtype': adt, 'data': rand_data(rng, [int(np.prod(shape))], 'int32'),
-                            'transposed': bool(rng.random() < 0.3 and len(shape) == 2 and kind != 'pow')}
-                    try:
-                        ok, cat, obs, exp = sharing_eval(spec)
-                    except Exception as e:      # noqa
-                        ok, cat, obs, exp = False, 'crash', repr(e), None
-                    rp = ("import sys\nsys.path.insert(0, %r)\nfrom harness.c17 import sharing_eval\nspec = %r\n"
-                          "ok, category, observed, expected = sharing_eval(spec)\n" % (C.VERIF, spec))
-                    out.append(C.Probe(bool(ok), 'wrap-%s-%s' % (kind, cat), 'space.element(arr) shares memory with arr / '
-                                       'asarray round-trips (%s, %s <- %s)' % (kind, dtype, adt), rp,
-                                       {'category': cat, 'observed': obs, 'expected': exp}))
+                    for lay in LAYOUTS:
+                        spec = {'space': sd, 'adtype': adt, 'data': rand_data(rng, [int(np.prod(shape))], 'int32'),
+                                'layout': lay}
+                        try:
+                            ok, cat, obs, exp = sharing_eval(spec)
+                        except Exception as e:      # noqa
+                            ok, cat, obs, exp = False, 'crash', repr(e), None
+                        rp = ("import sys\nsys.path.insert(0, %r)\nfrom harness.c17 import sharing_eval\nspec = %r\n"
+                              "ok, category, observed, expected = sharing_eval(spec)\n" % (C.VERIF, spec))
+                        out.append(C.Probe(bool(ok), 'wrap-%s-%s' % (kind, cat), 'space.element(arr) [layout %s] shares memory with arr / ' % lay +
+                                           'asarray round-trips (%s, %s <- %s)' % (kind, dtype, adt), rp,
+                                           {'category': cat, 'observed': obs, 'expected': exp}))
     # ---- legacy interface
     from odl.util.ufuncs import RAW_UFUNCS
     for _ in range(1 if tier == 'quick' else 3):
